@@ -19,17 +19,20 @@ def parse(path):
             out[cur] = {"named": m.group(2), "demo": (int(m.group(3)), int(m.group(4))), "tests": m.group(5).strip(),
                         "rc": int(m.group(6)), "msg": msg[0][9:300].strip() if msg else "", "other": None}
             continue
-        m = re.match(r"\s+caught by (C\d+) instead: .*?(?:message: (.*))?$", line)
-        if m and cur:
-            out[cur]["other"] = m.group(1)
-            out[cur]["other_msg"] = (m.group(2) or "").strip()[:300]
-        if "NOT CAUGHT" in line and cur:
-            out[cur]["other"] = "none"
+        m = re.match(r"\s+(?:(free-\S+) )?caught by (C\d+) instead: .*?(?:message: (.*))?$", line)
+        if m and (m.group(1) or cur) in out:
+            k = m.group(1) or cur  # lines of concurrent runs interleave: newer files name the seed on the line
+            out[k]["other"] = m.group(2)
+            out[k]["other_msg"] = (m.group(3) or "").strip()[:300]
+        m = re.match(r"\s+(?:(free-\S+) )?NOT CAUGHT", line)
+        if m and (m.group(1) or cur) in out:
+            out[m.group(1) or cur]["other"] = "none"
     return out
 
 
-first = parse(os.path.join(ROOT, "seeded", "RESULTS.free%s.first-try.txt" % R))
-final = parse(os.path.join(ROOT, "seeded", "RESULTS.free%s.txt" % R))
+T = "" if R == "A" else R  # the first round's files carry no letter
+first = parse(os.path.join(ROOT, "seeded", "RESULTS.free%s.first-try.txt" % T))
+final = parse(os.path.join(ROOT, "seeded", "RESULTS.free%s.txt" % T))
 n = 0
 for name, r in sorted(final.items()):
     p = os.path.join(ROOT, "seeded", name, "meta.json")
